@@ -7,6 +7,7 @@ use crate::signature::{converter::SignatureConverter, EntraitSignature, InputSig
 use crate::token_util::TokenPair;
 
 use proc_macro2::Span;
+use quote::ToTokens;
 use syn::spanned::Spanned;
 
 #[derive(Clone)]
@@ -228,11 +229,11 @@ impl GenericsAnalyzer {
                     syn::WherePredicate::Type(predicate_type) => match &predicate_type.bounded_ty {
                         syn::Type::Path(type_path) => {
                             if type_path.qself.is_some() || type_path.path.leading_colon.is_some() {
-                                self.trait_generics.where_predicates.push(predicate.clone());
+                                self.lift_where_predicate(predicate, generics);
                                 continue;
                             }
                             if type_path.path.segments.len() != 1 {
-                                self.trait_generics.where_predicates.push(predicate.clone());
+                                self.lift_where_predicate(predicate, generics);
                                 continue;
                             }
                             let first_segment = type_path.path.segments.first().unwrap();
@@ -244,11 +245,11 @@ impl GenericsAnalyzer {
                             }
                         }
                         _ => {
-                            self.trait_generics.where_predicates.push(predicate.clone());
+                            self.lift_where_predicate(predicate, generics);
                         }
                     },
                     _ => {
-                        self.trait_generics.where_predicates.push(predicate.clone());
+                        self.lift_where_predicate(predicate, generics);
                     }
                 }
             }
@@ -258,6 +259,15 @@ impl GenericsAnalyzer {
             generic_param: Some(generic_param_ident.clone()),
             trait_bounds: deps_trait_bounds,
         })
+    }
+
+    /// Copy a where-predicate of the function to the generated trait,
+    /// unless it mentions a lifetime parameter of the function:
+    /// that lifetime is not in scope on the trait, and the method keeps the whole where clause anyway.
+    fn lift_where_predicate(&mut self, predicate: &syn::WherePredicate, generics: &syn::Generics) {
+        if !mentions_lifetime_param(predicate.to_token_stream(), generics) {
+            self.trait_generics.where_predicates.push(predicate.clone());
+        }
     }
 
     fn deps_with_generics(
@@ -279,12 +289,37 @@ impl GenericsAnalyzer {
 
         if let Some(where_clause) = &generics.where_clause {
             for predicate in &where_clause.predicates {
-                self.trait_generics.where_predicates.push(predicate.clone());
+                self.lift_where_predicate(predicate, generics);
             }
         }
 
         Ok(deps)
     }
+}
+
+fn mentions_lifetime_param(stream: proc_macro2::TokenStream, generics: &syn::Generics) -> bool {
+    let mut after_apostrophe = false;
+    for token_tree in stream {
+        match token_tree {
+            proc_macro2::TokenTree::Punct(punct) if punct.as_char() == '\'' => {
+                after_apostrophe = true;
+                continue;
+            }
+            proc_macro2::TokenTree::Ident(ident) if after_apostrophe => {
+                if generics.lifetimes().any(|param| param.lifetime.ident == ident) {
+                    return true;
+                }
+            }
+            proc_macro2::TokenTree::Group(group) => {
+                if mentions_lifetime_param(group.stream(), generics) {
+                    return true;
+                }
+            }
+            _ => {}
+        }
+        after_apostrophe = false;
+    }
+    false
 }
 
 fn extract_trait_bounds(
